@@ -28,7 +28,7 @@ func vMkHash(cs *clientState, k, name string) *vHashModel {
 	m := &vHashModel{}
 	for i, f := range vFieldPool {
 		if vBool(name + ".has") {
-			v := vStringN(name+".v", 1+vTier())
+			v := vString(name+".v", 1+vTier()) // may be empty: an empty value is a value
 			vCmd(cs, "HSET", k, f, v)
 			m.present[i] = true
 			m.val[i] = v
